@@ -3078,11 +3078,11 @@ proof {
     assert(b0 == block_at(self.items@, k));
     assert(self.block == block_at(self.items@, k + 1));
     assert(*item == self.items@[k]);
-    if is_bracket(*item) { assert(keep == (section_of(*item) == self.target)); } else {
+    if is_bracket(*item) { assert(keep == (section_of(*item) == self.target)); } else { // #kept_iff_listed_under_the_requested_list
         match b0 {
-            ItemBlock::No => { assert(keep == (section_of(*item) == self.target)); }
-            ItemBlock::Decor(t) => { assert(keep == (t == self.target)); }
-            ItemBlock::Anywhere(t) => { assert(keep == (t == self.target && described(*item))); }
+            ItemBlock::No => { assert(keep == (section_of(*item) == self.target)); } // #kept_iff_listed_under_the_requested_list
+            ItemBlock::Decor(t) => { assert(keep == (t == self.target)); } // #kept_iff_listed_under_the_requested_list
+            ItemBlock::Anywhere(t) => { assert(keep == (t == self.target && described(*item))); } // #kept_iff_listed_under_the_requested_list
         }
     }
     assert(keep == listed_under(self.items@, self.target, k));
